@@ -245,7 +245,8 @@ class PeerConn:
         self.handshake_done = asyncio.Event()
         self.request_seen = asyncio.Event()
         self.closed_by_peer = False
-        self.garbage_hello = peer.garbage_hello
+        self.garbage_hello = peer.garbage_hello or (len(peer.conns) < getattr(peer, "fail_first_n", 0))
+        self._delay_until = (loop.time() + peer.handshake_delay) if getattr(peer, "handshake_delay", 0) else None
         self._processing = False
         self.app_bytes_at: list[tuple] = []
 
@@ -259,6 +260,10 @@ class PeerConn:
             self.loop.call_soon(self._send_raw, b"HTTP/1.1 400 Bad Request\r\n\r\n")
             return
         self.tls.put(data)
+        if self._delay_until is not None and self.loop.time() < self._delay_until:
+            self.loop.call_later(self._delay_until - self.loop.time(), self.process)
+            self._delay_until = None
+            return
         self.loop.call_soon(self.process)
 
     def _send_raw(self, data):
@@ -374,6 +379,10 @@ class ScriptedPeer:
         # application bytes the peer puts into the same TCP segment as the last flight of its handshake (TLS 1.2: right
         # behind its Finished), i.e. before it can have read anything of the request
         self.early_data: bytes = b""
+        # the first n connections get garbage instead of a TLS handshake (a peer that is restarting, a middlebox)
+        self.fail_first_n = 0
+        # seconds the peer lets the ClientHello wait before it starts to answer
+        self.handshake_delay = 0.0
 
     def set_cert(self, cert: certs.Cert):
         self.cert = cert
